@@ -290,9 +290,31 @@ func c16CheckHdr(c c16HdrCase) engine.Result {
 				sr.Reset(cur)
 				brBig.Reset(&sr)
 				c16Run(&res, brBig, &sr, cur, at, c16Class(at, falseSyncs, cut), desc)
+				// the plausibility test itself, on a reader positioned at the candidate and one byte before it:
+				// it answers for the four bytes at the reader's position and consumes nothing
+				for _, start := range [...]int{1, 0} {
+					sr.Reset(cur[start:])
+					brBig.Reset(&sr)
+					ok, err := packet.IsSynced(brBig)
+					want := start == 1 && at == 1
+					if err != nil || ok != want {
+						res.Failf("IsSynced|answer", "reader at % x: IsSynced = %v, %v; want %v", cur[start:start+4], ok, err, want)
+					}
+					if b, e := brBig.ReadByte(); e != nil || b != cur[start] {
+						res.Failf("IsSynced|consumes-input", "reader at % x: the byte read after IsSynced is %#x (err %v)", cur[start:start+4], b, e)
+					}
+				}
 				if len(res.Fail) > 8 {
 					return
 				}
+			}
+		}
+		// fewer than four bytes left: never "synced"
+		for n := 0; n < 4; n++ {
+			sr.Reset([]byte{0x47, 0x00, 0x10, 0x10}[:n])
+			br.Reset(&sr)
+			if ok, _ := packet.IsSynced(br); ok {
+				res.Failf("IsSynced|short-stream", "IsSynced is true with %d bytes left", n)
 			}
 		}
 	})
@@ -439,7 +461,7 @@ func init() {
 			},
 			&engine.Enum[c16HdrCase]{
 				Name: "sync-every-header",
-				Rule: "stream 00 47 b1 b2 b3 + a 188-byte null packet for every b1, b2 in 0..255 and b3 from 16 values covering every afc and scrambling value (thorough: every b3; case = b1, Check loops b2,b3), bufio sizes 16 and 4096, whole-stream reads: offset 1 iff afc!=0 and PID outside 4..15 per the reference header parser, otherwise the next plausible position of the reference scan (normally the null packet at 5); reader position as above; non-trivial = candidate header that must be rejected",
+				Rule: "stream 00 47 b1 b2 b3 + a 188-byte null packet for every b1, b2 in 0..255 and b3 from 16 values covering every afc and scrambling value (thorough: every b3; case = b1, Check loops b2,b3), bufio sizes 16 and 4096, whole-stream reads (plus IsSynced itself on a reader at the candidate and one byte before it: answer, nothing consumed): offset 1 iff afc!=0 and PID outside 4..15 per the reference header parser, otherwise the next plausible position of the reference scan (normally the null packet at 5); reader position as above; non-trivial = candidate header that must be rejected",
 				Gen: func(r *engine.Run, emit func(c16HdrCase)) {
 					for b1 := 0; b1 < 256; b1++ {
 						emit(c16HdrCase{B1: b1, Full: r.Thorough()})
